@@ -1,7 +1,7 @@
 """C01 — decided on the sequential tower model (see tools/tower_common.py, DESIGN.md section 5)."""
 import tower_common
 
-TARGETS = ["theories/Properties/C01.v"]
+TARGETS = ["theories/Properties/C01.v", "theories/Properties/C01_breach.v"]
 MON = {"C01"}
 KNOWN = {"C101": {"kind": "late-appointment-truncated-cache"}}
 
